@@ -98,6 +98,18 @@ Definition nofault_node (n : node) : Prop :=
      match rr_next (n_on_msg n canc s m) with NCont s' => n_ok n s' = true | NFault => False | NStop _ => True end) /\
   (forall canc s, n_ok n s = true -> cr_fault (n_on_close n canc s) = false).
 
+(* the same relative to a predicate on messages (e.g. "the TraceQL result row has arrays of equal length"): on
+   acceptable messages the body does not fault and emits only acceptable messages *)
+Definition nofault_node_on (okm : M -> bool) (n : node) : Prop :=
+  (forall canc s m, n_ok n s = true -> okm m = true ->
+     match rr_next (n_on_msg n canc s m) with NCont s' => n_ok n s' = true | NFault => False | NStop _ => True end /\
+     forallb okm (rr_out (n_on_msg n canc s m)) = true) /\
+  (forall canc s, n_ok n s = true ->
+     cr_fault (n_on_close n canc s) = false /\ forallb okm (cr_out (n_on_close n canc s)) = true).
+(* what a cell is still going to send is acceptable *)
+Definition pend_ok (okm : M -> bool) (c : cell) : Prop :=
+  match c_st c with CSend o _ => forallb okm o = true | _ => True end.
+
 (* a cell that is leaving (or has left) without a drainer *)
 Definition exiting_nodrain (st : cstate) : bool :=
   match st with CDone false => true | CSend _ (AExit false) => true | _ => false end.
@@ -209,6 +221,7 @@ Arguments mkCell {S M}. Arguments c_node {S M}. Arguments c_st {S M}.
 Arguments mkConfig {S M}. Arguments cancelled {S M}. Arguments crashed {S M}. Arguments cells {S M}.
 Arguments lstep {S M}. Arguments step {S M}. Arguments star {S M}. Arguments quiescent {S M}. Arguments handler_node {S M}.
 Arguments all_done {S M}. Arguments closed_st {S M}. Arguments good_node {S M}. Arguments nofault_node {S M}.
+Arguments nofault_node_on {S M}. Arguments pend_ok {S M}.
 Arguments exiting_nodrain {S M}. Arguments cell_ok {S M}. Arguments fresh_stage {S M}.
 Arguments cursor_cell {S M}. Arguments idle_node {S M}. Arguments init_config {S M}. Arguments mcell {S M}. Arguments set_st {S M}.
 Arguments sched {S M}. Arguments run {S M}. Arguments after_of {S}.
